@@ -640,6 +640,10 @@ func (w *worker[T]) vio(prop, rule, class, detail string, s *suspState[T], blen 
 		rel[i] = c - base
 	}
 	c := mkCase("schedule", w.e.Drv.Name, cfg, w.buf[base:], rel)
+	if cfg.Flags != w.e.Cfg.Flags {
+		// found on a final call with extra flags: the earlier calls of the schedule ran with the explorer's flags
+		c.Extra = map[string]any{"mid_flags": w.e.Cfg.Flags}
+	}
 	w.e.Run.Col.add(&Violation{Property: prop, Site: w.e.Drv.Name, Rule: rule, Class: class, Detail: detail, Case: c})
 }
 
